@@ -224,6 +224,7 @@ def body(ctx: Ctx):
         diffs, fails, validated = [], [], 0
         for s, o in zip(scens, outs):
             j = ce.judge_confirmed(m, s, o)
+            ctx.count("labels.lookCancelled", j["info"].get("lookCancelled", 0))
             ctx.case({"workers": s["workers"], "block": s["block"], "sessions": [len(x) for x in s["sessions"]]}, nontrivial=True)
             ctx.count("hist.block" if s["block"] else "hist.percall")
             ctx.count("hist.workers.%d" % s["workers"])
